@@ -105,6 +105,8 @@ type Link struct {
 	Stalled   bool   // no delivery while set (fault)
 	User      interface{}
 	ioSync    int // address used for race-detector release/acquire
+	written   int64 // bytes the peer wrote towards the SUT
+	consumed  int64 // bytes the SUT actually read
 }
 
 // Conn is the SUT-side endpoint (a net.Conn).
@@ -311,6 +313,7 @@ func (c *Conn) Read(b []byte) (int, error) {
 		}
 		if len(c.rbuf) > 0 {
 			n := copy(b, c.rbuf)
+			c.l.consumed += int64(n)
 			c.rbuf = c.rbuf[n:]
 			if len(c.rbuf) == 0 {
 				c.rbuf = nil
@@ -488,7 +491,17 @@ func (l *Link) PeerWrite(b []byte) {
 		return
 	}
 	l.toSUT = append(l.toSUT, b...)
+	l.written += int64(len(b))
 }
+
+// WrittenToSUT / ConsumedBySUT are stream offsets: a frame whose end offset is <= ConsumedBySUT
+// has been read by the SUT; anything beyond is lost if the connection dies.
+//
+//go:norace
+func (l *Link) WrittenToSUT() int64 { return l.written }
+
+//go:norace
+func (l *Link) ConsumedBySUT() int64 { return l.consumed }
 
 // PeerClose queues a FIN behind the bytes already written.
 //
